@@ -54,8 +54,11 @@ fn handle_client(stream: TcpStream, dbs: Arc<Databases>) {
     let mut reader = BufReader::new(&stream);
     let writer = &mut BufWriter::new(&stream);
     let (mut client, mut receiver) = Client::new_empty_and_receiver();
-    writer.write_fmt(format_args!("ok \n")).unwrap();
-    writer.flush().unwrap();
+    if writer.write_fmt(format_args!("ok \n")).is_err() || writer.flush().is_err() {
+        // The peer reset the connection before it was served (port scanners, health checks)
+        log::debug!("TCP client gone before the greeting");
+        return;
+    }
     loop {
         let mut buf = String::new();
         let read_line = reader.read_line(&mut buf);
